@@ -327,6 +327,7 @@ fn main() {
     let known = evidence::load_known();
     let mut code = 0;
     let mut nviol = 0;
+    let mut known_printed: Vec<String> = vec![];
     match &res.verdict {
         Verdict::Held => {
             println!("HELD property={id} tier={tier} seed={seed} wall_s={wall:.1}");
@@ -341,6 +342,7 @@ fn main() {
                 if let Some(k) = known.iter().find(|k| k.property == f.property && !k.signature.is_empty() && f.signature.contains(&k.signature)) {
                     if printed_known.insert(k.signature.clone()) {
                         println!("KNOWN-FINDING: property={} {}", k.property, k.what);
+                        known_printed.push(format!("{}: {}", k.signature, f.msg));
                     }
                     continue;
                 }
@@ -368,7 +370,7 @@ fn main() {
         res.coverage["samples"] = serde_json::json!([sample]);
     }
     if !is_replay {
-        if let Err(e) = evidence::write_evidence(&id, &tier, seed, &res, wall, nviol) {
+        if let Err(e) = evidence::write_evidence(&id, &tier, seed, &res, wall, nviol, &known_printed) {
             eprintln!("cannot write evidence: {e}");
         }
     }
